@@ -1,6 +1,6 @@
 (* SimGen.v — component-level refinement for arbitrary nesting of edges and folds (assignment level). *)
 From Coq Require Import Lia.
-From TF Require Import Exec Sem ExecLemmas Sim SimRec SimComp FoldLimits SimFold.
+From TF Require Import Exec Sem ExecLemmas Sim SimRec SimComp FoldLimits SimFold SimOut FoldOut SemComplete.
 Local Open Scope string_scope.
 Local Open Scope N_scope.
 Local Open Scope list_scope.
@@ -111,8 +111,8 @@ Section Gen.
     - constructor; [|assumption]. destruct Hc1 as (C1 & C2 & C3 & C4). repeat split; congruence.
   Qed.
 
-  (* ---------- the step loop ---------- *)
-  Lemma exec_steps_spec vs ss outer imp todo :
+  (* ---------- the step loop, assignment level only (no side conditions on output names) ---------- *)
+  Lemma exec_steps_asg vs ss outer imp todo :
     Forall (Psub (fun sub =>
                          forall outer' imp' cs r, wf_comp outer' sub -> keys_within outer' imp' ->
                            Forall (clean imp') cs -> Forall fresh cs ->
@@ -134,11 +134,13 @@ Section Gen.
         assert (Hsub' : forall imp' cs' r', keys_within (outer ++ fo_imported h) imp' ->
                    Forall (clean imp') cs' -> Forall fresh cs' ->
                    compute_component re_match g args sub cs' = Ok r' ->
-                   map asg_of r' = flat_map (fun x => sem_comp re_match g args sub imp' (active x)) cs').
-        { intros imp' cs' r' Hp Hc' Hf' Hr'. cbn [Psub] in Hs. eapply Hs; eassumption. }
+                   map asg_of r' = flat_map (fun x => sem_comp re_match g args sub imp' (active x)) cs' /\
+                   Forall (fun _ => True) r').
+        { intros imp' cs' r' Hp Hc' Hf' Hr'. cbn [Psub] in Hs. split; [eapply Hs; eassumption|].
+          apply Forall_forall. intros; exact I. }
         assert (Hp' : forall a, keys_within (outer ++ fo_imported h) (imports_of g vs ss imp a (fo_imported h) imp)).
         { intros a. now apply keys_within_imports. }
-        destruct (fold_step_spec re_match g args (keys_within (outer ++ fo_imported h)) vs ss imp h sub
+        destruct (fold_step_spec re_match g args (keys_within (outer ++ fo_imported h)) (fun _ => True) vs ss imp h sub
                                  (compute_component re_match g args sub) cs x Hsub' Hp' Hnm Hfresh Hc Hx) as (yss & HF & Hout).
         idtac.
         assert (Hcy : Forall (clean imp) (List.concat yss)).
@@ -151,7 +153,7 @@ Section Gen.
         cbn [List.concat map flat_map]. now rewrite map_app, IHf, Hy.
   Qed.
 
-  (* ---------- any component ---------- *)
+  (* ---------- any component, assignment level ---------- *)
   Theorem compute_component_spec : forall c outer imp cs r,
     wf_comp outer c -> keys_within outer imp ->
     Forall (clean imp) cs -> Forall fresh cs ->
@@ -164,8 +166,164 @@ Section Gen.
     injection Hx as <-.
     destruct (enter_vertex_spec re_match g args vs ss imp rv cs x0 Hc Hx0) as (-> & Hcl0).
     apply wf_comp_steps in Hwf.
-    destruct (exec_steps_spec vs ss outer imp ss IHss Hwf Hk _ r Hcl0 H) as (E & _).
+    destruct (exec_steps_asg vs ss outer imp ss IHss Hwf Hk _ r Hcl0 H) as (E & _).
     rewrite E. clear E H Hcl0 Hx0. pose proof (find_vertex_vid _ _ _ Er) as Hvid.
+    revert Hc Hf. induction cs as [|c cs IH]; intros Hc Hf; [cbn [filter map flat_map]; apply sem_steps_nil|].
+    inversion Hc as [|? ? Hc1 Hc2]; inversion Hf as [|? ? (F1 & F2 & F3) Hf2]; subst.
+    cbn [filter flat_map]. rewrite sem_comp_eq, Er.
+    assert (Ha : asg_of c = Asg [] []) by (rewrite asg_of_eq, F1, F2; reflexivity).
+    rewrite Ha.
+    destruct (enter re_match g args vs ss imp (Asg [] []) rv (active c)) eqn:Ee.
+    - cbn [map]. rewrite asg_of_recorded, Ha. cbn [set_av a_v a_f app].
+      match goal with |- sem_steps _ _ _ _ _ _ _ (?a :: ?l) = _ => change (a :: l) with ([a] ++ l) end.
+      rewrite sem_steps_app. f_equal. apply IH; assumption.
+    - apply IH; assumption.
+  Qed.
+
+  (* ---------- output bookkeeping: static side conditions and frame lemmas ---------- *)
+  (* output keys (fold eid, name) and fold eids are pairwise distinct, at every nesting level
+     (the frontend guarantees globally unique output names and eids: C11's wf_ir) *)
+  Fixpoint wf_out (c : ir_component) {struct c} : Prop :=
+    match c with
+    | mkComp _ _ ss _ =>
+        NoDup (steps_keys ss) /\ NoDup (steps_eids ss) /\
+        (fix go (ss : list step) : Prop :=
+           match ss with
+           | [] => True
+           | SEdge _ :: r => go r
+           | SFold _ sub :: r => wf_out sub /\ go r
+           end) ss
+    end.
+
+  Fixpoint wf_out_steps (todo : list step) : Prop :=
+    match todo with
+    | [] => True
+    | SEdge _ :: r => wf_out_steps r
+    | SFold _ sub :: r => wf_out sub /\ wf_out_steps r
+    end.
+
+  Lemma wf_out_eq root vs ss outs :
+    wf_out (mkComp root vs ss outs) <-> NoDup (steps_keys ss) /\ NoDup (steps_eids ss) /\ wf_out_steps ss.
+  Proof.
+    cbn [wf_out]. assert (E : (fix go (ss : list step) : Prop :=
+           match ss with
+           | [] => True
+           | SEdge _ :: r => go r
+           | SFold _ sub :: r => wf_out sub /\ go r
+           end) ss <-> wf_out_steps ss).
+    { induction ss as [|[e|h sub] r IH]; cbn [wf_out_steps]; [tauto|exact IH|]. rewrite IH. tauto. }
+    rewrite E. tauto.
+  Qed.
+
+  Definition Qel (sub : ir_component) (el : ctx) : Prop := FV g sub el /\ complete sub (a_f (asg_of el)).
+
+  Lemma FV_frame c c0 x : frame c0 x -> FV g c c0 -> FV g c x.
+  Proof.
+    intros (F1 & F2) (H1 & H2). split; [now rewrite F2|]. intros k. rewrite F2, H2, !a_f_asg_of, F1. reflexivity.
+  Qed.
+
+  Lemma FV_fresh c x : fresh x -> FV g c x.
+  Proof.
+    intros (_ & F2 & F3). split; [rewrite F3; constructor|]. intros k. rewrite F3, a_f_asg_of, F2.
+    destruct c as [root vs ss outs]. rewrite fspec_eq. cbn [map lookup_fvk]. symmetry. apply fspec_nil.
+  Qed.
+
+  Lemma FV_recorded c vid x : FV g c x -> FV g c (recorded vid x).
+  Proof.
+    intros (H1 & H2). assert (E1 : folded_values (recorded vid x) = folded_values x) by (destruct x; reflexivity).
+    assert (E2 : folded_contexts (recorded vid x) = folded_contexts x) by (destruct x; reflexivity).
+    split; [now rewrite E1|]. intros k. rewrite E1, H2, !a_f_asg_of, E2. reflexivity.
+  Qed.
+
+  (* ---------- the step loop, with the output bookkeeping ---------- *)
+  Lemma exec_steps_spec root vs ss outs outer imp todo :
+    Forall (Psub (fun sub =>
+                         forall outer' imp' cs r, wf_comp outer' sub -> wf_out sub -> keys_within outer' imp' ->
+                           Forall (clean imp') cs -> Forall fresh cs ->
+                           compute_component re_match g args sub cs = Ok r ->
+                           map asg_of r = flat_map (fun x => sem_comp re_match g args sub imp' (active x)) cs /\
+                           Forall (FV g sub) r /\ Forall (clean imp') r)) todo ->
+    wf_steps outer vs todo -> keys_within outer imp ->
+    wf_out_steps todo -> incl todo ss -> NoDup (steps_keys ss) -> NoDup (steps_eids ss) ->
+    forall cs r, Forall (clean imp) cs -> Forall (FV g (mkComp root vs ss outs)) cs ->
+      exec_steps re_match g args vs ss todo cs = Ok r ->
+      map asg_of r = sem_steps re_match g args vs ss imp todo (map asg_of cs) /\ Forall (clean imp) r /\
+      Forall (FV g (mkComp root vs ss outs)) r.
+  Proof.
+    intros HIH. induction HIH as [|s todo Hs _ IH]; intros Hwf Hk Hwo Hincl Hkeys Heids cs r Hc Hfv H;
+      cbn [exec_steps sem_steps wf_steps wf_out_steps] in *.
+    - injection H as <-. split; [reflexivity|]. split; assumption.
+    - assert (Hincl' : incl todo ss) by (intros y Hy; apply Hincl; now right).
+      assert (Hin : In s ss) by (apply Hincl; now left).
+      destruct s as [e|h sub].
+      + destruct Hwf as (Hok & Hwf). inv_bind H.
+        destruct (expand_edge_spec re_match g args Hind vs ss imp e cs x Hok Hc Hx) as (E1 & Hcl & Hfr).
+        assert (Hfvx : Forall (FV g (mkComp root vs ss outs)) x).
+        { rewrite Forall_forall in Hfr, Hfv. apply Forall_forall. intros y Hy. destruct (Hfr y Hy) as (c0 & Hc0 & Hf).
+          eapply FV_frame; [exact Hf|auto]. }
+        destruct (IH Hwf Hk Hwo Hincl' Hkeys Heids x r Hcl Hfvx H) as (E2 & Hcl2 & Hfv2).
+        split; [now rewrite E2, E1|]. split; assumption.
+      + destruct Hwf as ((Hnm & Hdis & Hwsub) & Hwf). destruct Hwo as (Hwosub & Hwo). inv_bind H.
+        assert (Hfresh : Forall (key_fresh imp) (fo_imported h)) by (eapply key_fresh_of; eassumption).
+        assert (Hsub' : forall imp' cs' r', keys_within (outer ++ fo_imported h) imp' ->
+                   Forall (clean imp') cs' -> Forall fresh cs' ->
+                   compute_component re_match g args sub cs' = Ok r' ->
+                   map asg_of r' = flat_map (fun x => sem_comp re_match g args sub imp' (active x)) cs' /\
+                   Forall (Qel sub) r').
+        { intros imp' cs' r' Hp Hc' Hf' Hr'. cbn [Psub] in Hs.
+          destruct (Hs _ _ _ _ Hwsub Hwosub Hp Hc' Hf' Hr') as (E & Hfvr & _). split; [exact E|].
+          apply Forall_forall. intros el Hel. split; [rewrite Forall_forall in Hfvr; auto|].
+          assert (Hin' : In (asg_of el) (map asg_of r')) by now apply in_map.
+          rewrite E in Hin'. apply in_flat_map in Hin'. destruct Hin' as (x0 & _ & Hx0).
+          eapply sem_comp_complete; exact Hx0. }
+        assert (Hp' : forall a, keys_within (outer ++ fo_imported h) (imports_of g vs ss imp a (fo_imported h) imp)).
+        { intros a. now apply keys_within_imports. }
+        destruct (fold_step_spec re_match g args (keys_within (outer ++ fo_imported h)) (Qel sub) vs ss imp h sub
+                                 (compute_component re_match g args sub) cs x Hsub' Hp' Hnm Hfresh Hc Hx) as (yss & HF & Hout).
+        assert (Hcy : Forall (clean imp) (List.concat yss)).
+        { clear - HF. induction HF as [|c ys l yss (_ & Hy) _ IHf]; [constructor|]. cbn [List.concat]. apply Forall_app. split; [|assumption].
+          eapply Forall_impl; [|exact Hy]. intros y (Hcl & _). exact Hcl. }
+        destruct (fold_outputs_keep imp h sub _ _ Hcy Hout) as (Ex & Hclx).
+        (* the output bookkeeping *)
+        assert (Hpre : Forall (fun y => exists c0 fe, FV g (mkComp root vs ss outs) c0 /\
+                            folded_values y = folded_values c0 /\
+                            folded_contexts y = folded_contexts c0 ++ [(fo_eid h, fe)] /\
+                            lookup_N (fo_eid h) (folded_contexts c0) = None /\
+                            match fe with Some els => Forall (Qel sub) els | None => True end) (List.concat yss)).
+        { clear - HF Hfv. revert Hfv. induction HF as [|c ys l yss (_ & Hy) _ IHf]; intros Hfv; [constructor|].
+          inversion Hfv as [|? ? Hfc Hfvl]; subst. cbn [List.concat]. apply Forall_app. split; [|auto].
+          eapply Forall_impl; [|exact Hy]. intros y (_ & _ & Hv & Hl & fe & Hfe & HQ). exists c, fe. auto. }
+        assert (Hfvx : Forall (FV g (mkComp root vs ss outs)) x).
+        { apply mapM_ok in Hout. clear - Hout Hpre Hin Hkeys Heids. induction Hout as [|y z l r Hyz _ IHo]; [constructor|].
+          inversion Hpre as [|? ? (c0 & fe & Hfc0 & Hv & Hfc & Hl & HQ) Hpre']; subst. constructor; [|auto].
+          eapply (fold_outputs_one_FV g root vs ss outs h sub c0 y fe z); eassumption. }
+        destruct (IH Hwf Hk Hwo Hincl' Hkeys Heids x r Hclx Hfvx H) as (E2 & Hcl2 & Hfv2). split; [|split; assumption].
+        rewrite E2, Ex. f_equal.
+        clear - HF. induction HF as [|c ys l yss (Hy & _) _ IHf]; [reflexivity|].
+        cbn [List.concat map flat_map]. now rewrite map_app, IHf, Hy.
+  Qed.
+
+  (* ---------- any component ---------- *)
+  Theorem compute_component_full : forall c outer imp cs r,
+    wf_comp outer c -> wf_out c -> keys_within outer imp ->
+    Forall (clean imp) cs -> Forall fresh cs ->
+    compute_component re_match g args c cs = Ok r ->
+    map asg_of r = flat_map (fun x => sem_comp re_match g args c imp (active x)) cs /\
+    Forall (FV g c) r /\ Forall (clean imp) r.
+  Proof.
+    induction c as [root vs ss outs IHss] using comp_ind'. intros outer imp cs r Hwf Hwo Hk Hc Hf H.
+    rewrite compute_component_eq in H. inv_bind H. inv_bind H.
+    unfold vertex_of, expect_some in Hx. destruct (find_vertex vs root) as [rv|] eqn:Er; [|discriminate].
+    injection Hx as <-.
+    destruct (enter_vertex_spec re_match g args vs ss imp rv cs x0 Hc Hx0) as (-> & Hcl0).
+    apply wf_comp_steps in Hwf. apply (proj1 (wf_out_eq _ _ _ _)) in Hwo. destruct Hwo as (Hkeys & Heids & Hwos).
+    assert (Hfv0 : Forall (FV g (mkComp root vs ss outs))
+                     (map (recorded (v_vid rv)) (filter (fun c => enter re_match g args vs ss imp (asg_of c) rv (active c)) cs))).
+    { apply Forall_forall. intros y Hy. apply in_map_iff in Hy. destruct Hy as (c0 & <- & Hc0). apply filter_In in Hc0.
+      apply FV_recorded, FV_fresh. rewrite Forall_forall in Hf. apply Hf. tauto. }
+    destruct (exec_steps_spec root vs ss outs outer imp ss IHss Hwf Hk Hwos (incl_refl _) Hkeys Heids _ r Hcl0 Hfv0 H) as (E & Hclr & Hfvr).
+    split; [|split; [exact Hfvr|exact Hclr]].
+    rewrite E. clear E H Hcl0 Hx0 Hfv0 Hfvr Hclr. pose proof (find_vertex_vid _ _ _ Er) as Hvid.
     revert Hc Hf. induction cs as [|c cs IH]; intros Hc Hf; [cbn [filter map flat_map]; apply sem_steps_nil|].
     inversion Hc as [|? ? Hc1 Hc2]; inversion Hf as [|? ? (F1 & F2 & F3) Hf2]; subst.
     cbn [filter flat_map]. rewrite sem_comp_eq, Er.
